@@ -205,6 +205,8 @@ class DownloadAttempt:
         self.ticket = None
         self.received = bytearray()
         self.offset_sent = None
+        self.header_bytes = 0
+        self.plan = None
         self.closed = False
         self.client_closed = False
         self.complete_time = None
@@ -236,6 +238,8 @@ class ScriptedDownloader:
         self.expected_sizes: dict[str, int] = {}
         self.close_when_complete = True
         self.close_after = None                    # close the file connection after k bytes (downloader-side cut)
+        self.attempt_plan = None                   # fn(file attempt index) -> {'close_after': k|None, 'reset': bool, 'stall': bool}
+        self._file_attempts = 0
         self.offset_delay = 0.002
 
     def queue(self, path, link=None):
@@ -306,21 +310,39 @@ class ScriptedDownloader:
                 att.ticket = ticket
                 self.attempts[ticket] = att
             att.file_link = link
+            att.header_bytes = link.ep.received_total - len(link.raw)   # init message + ticket
+            att.plan = self.attempt_plan(self._file_attempts) if self.attempt_plan else None
+            self._file_attempts += 1
             link.attempt = att
             link.ep.on_eof = lambda ep: self._client_closed(att)
             link.ep.on_reset = lambda ep: self._client_closed(att)
             off = self.offsets.get(att.path, 0)
             att.offset_sent = off
             link.ep.send(struct.pack('<Q', off), delay=self.offset_delay)
+            want = self.expected_sizes.get(att.path)
+            plan = att.plan or {}
+            if want is not None and off >= want and self.close_when_complete and self.close_after is None \
+                    and plan.get('close_after') is None and not plan.get('stall'):
+                # nothing (left) to receive: a real downloader closes right after sending the offset
+                att.closed = True
+                att.complete_time = self.loop.time()
+                link.ep.close(delay=self.offset_delay + 0.003)
+                return
         if link.raw:
             att.received += link.raw
             del link.raw[:]
-        if self.close_after is not None and len(att.received) >= self.close_after and not att.closed:
+        plan = att.plan or {}
+        close_after = plan.get('close_after', self.close_after)
+        if close_after is not None and len(att.received) >= close_after and not att.closed:
             att.closed = True
-            link.ep.close()
+            # never before the offset went out: the cut is in the file stream
+            if plan.get('reset'):
+                link.ep.reset(delay=self.offset_delay + 0.001 if not att.received else 0.0)
+            else:
+                link.ep.close(delay=self.offset_delay + 0.001 if not att.received else 0.0)
             return
         want = self.expected_sizes.get(att.path)
-        if want is not None and self.close_when_complete and not att.closed:
+        if want is not None and self.close_when_complete and not att.closed and not plan.get('stall'):
             if len(att.received) + (att.offset_sent or 0) >= want:
                 att.closed = True
                 att.complete_time = self.loop.time()
